@@ -1107,6 +1107,11 @@ var named = []struct{ name, s, init string }{
 	{"rescan-after-transition", "P S Tl:b Tw Tr W S", ""},           // stale snapshot if accelerate is not reset
 	{"poller-in-window", "P S Tl:c P Tw Tr W S", ""},                // ... or reset before the window
 	{"revert-inside-window", "P S Tl:b Tw E:a Tr", ""},              // needs the strobe in Transition
+	// acceleration already off when the Transition starts (full rescan right after a changing transition, no poll in
+	// between) and the poller's scan lands inside the unlocked window, switching it on again: it must be off afterwards
+	{"poller-in-window-unaccelerated", "P S Tl:c Tw Tr S Tl:b P Tw Tr S", ""},
+	{"poller-in-window-unaccelerated-late", "P S Tl:c Tw Tr S Tl:b Tw P Tr S", ""},
+	{"poller-in-window-unaccelerated-rm", "P S Tl:c Tw Tr S Tl:a P Tw Tr S", ""},
 	{"revert-before-rescan", "P S Tl:c Tw Tr E:a W S", ""},          // the strobe covers it
 	{"temporary-file", "P S T+ P T- P E:b P W S", ""},               // temporaries are not modifications
 	{"delete-and-recreate", "P S E:c P W S Tl:a Tw Tr W S E:c", ""}, // reversal of a deletion
